@@ -10,7 +10,7 @@ from . import common
 
 NAME = "U-optloop"
 TOOL = "verus"
-PROPS = ["C02", "C18", "C16"]
+PROPS = ["C02", "C18", "C16", "C15"]
 RLIMIT = 200
 TRUSTED = ["verus 0.2026.09.13 + z3", "R32: itertools::multipeek(self.code.iter_mut()) is a cursor over the vector; the block only reads through `first` / `second` (checked on its text)",
            "A-vstd (String clone, Option)"]
